@@ -22,9 +22,9 @@ pub type FDec = FBig<mode::HalfAway, 10>;
 
 pub const NP: usize = 4;
 /// pool values larger than this many bits are replaced after the step (keeps histories bounded)
-pub const CAP_BITS: usize = if cfg!(miri) { 768 } else { 4096 };
+pub const CAP_BITS: usize = if cfg!(miri) { 512 } else { 4096 };
 /// hard guard for intermediate results requested by an op (so that any op list is safe to run)
-pub const GUARD_BITS: usize = if cfg!(miri) { 4096 } else { 1 << 15 };
+pub const GUARD_BITS: usize = if cfg!(miri) { 1024 } else { 1 << 15 };
 
 #[derive(Clone, Copy, Debug, PartialEq, Eq, Hash, PartialOrd, Ord)]
 pub enum Pool {
